@@ -93,6 +93,14 @@ def gen_layout(rng, collisions=True, small=False):
         w = bytes(rng.choice(b"abcXYZ019 _-.:/\\$%#@!~+\x80\xa9\xe9\xff") for _ in range(n)).strip()
         if w and b"\n" not in w and b"\r" not in w:
             words.append(w)
+    # Bytes that are line boundaries for str.splitlines() but not in a binary file (VT, FF, FS, GS, RS, NEL,
+    # U+2028): a keyword containing one is still one keyword (seeded change c18r: files read in text mode).
+    # Always inside a word, never a whole line, and derived without drawing from the generator.
+    if len(words) >= 2 and (len(words) + len(words[0]) + ndirs) % 3 == 0:
+        seps = [b"\x0c", b"\x0b", b"\x1c", b"\x1d", b"\x1e", b"\xc2\x85", b"\xe2\x80\xa8", b"\x85"]
+        w = words[0][:4] + seps[(len(words[1]) + nfiles) % len(seps)] + words[-1][:4]
+        if b"\n" not in w and b"\r" not in w and w.strip() == w and w not in words:
+            words.append(w)
     shared = rng.sample(words, min(len(words), rng.randint(0, 2))) if collisions else []
     cased = rng.sample(words, min(len(words), rng.randint(0, 2))) if collisions else []
     files = []
